@@ -105,7 +105,7 @@ class DocGen:
         interp=True, nonkern_tandem=True, mid_sigs=True, clef_first=0.85,
         splits=True, nested=True, multi_ops=True, early_term=True, ops_burst=0.45,
         blank_lines=False, final_bar=0.6, opening_bar=0.5, surplus=False,
-        kern_only=False, first_kern=0.85, own_text=True, root_sigs=False, nonkern_sigs=0.15,
+        kern_only=False, first_kern=0.85, own_text=True, root_sigs=False, root_plain=False, nonkern_sigs=0.15,
     )
 
     def __init__(self, rnd: random.Random, **profile):
@@ -220,7 +220,10 @@ class DocGen:
             if k < 0.12:
                 return NULL()
             if typ == '**root':
-                n = self.note(maxsig=0) if k < 0.85 or not p['rests'] else self.rest()
+                if p['root_plain']:          # harmonic roots as they are written in practice: no signifiers at all
+                    n = self.note(pool=[]) if k < 0.85 or not p['rests'] else self.rest(pool=[])
+                else:
+                    n = self.note(maxsig=0) if k < 0.85 or not p['rests'] else self.rest()
                 return note_cell(n)
             if k < 0.62:
                 return note_cell(self.note())
